@@ -24,7 +24,7 @@ def table_dirs(mversion=33, local=None):
 
 def base_consts(dirs=None, mversion=33, local=None, **over):
     c = {'Cases': '<<>>', 'Editions': '{4}', 'Compressions': '{FALSE}', 'SubsetCounts': '{1}', 'Fmax': '0', 'Seeds': '{0}',
-         'Slack': '0', 'ValueMode': '"classes"', 'Mode': '"produce"', 'ResetPolicy': '"fm94"',
+         'Slack': '0', 'ValueMode': '"classes"', 'Mode': '"produce"', 'ResetPolicy': '"fm94"', 'NulStrings': 'FALSE',
          'TableDirs': tlc.tla_val(list(dirs or table_dirs(mversion, local))), 'ExtraB': '<<>>', 'ExtraD': '<<>>',
          'MasterVersion': str(mversion), 'LocalVersion': str(local[2] if local else 0),
          'Centre': str(local[0] if local else 0), 'SubCentre': str(local[1] if local else 0), 'IdentVariant': '0'}
